@@ -882,7 +882,9 @@ def op_checksequenceverify(stack, tx_obj, input_index):
         return False
     if tx_obj.version < 2:
         return False
-    stack_sequence = Sequence(element)
+    # the operand may be a 5-byte number: BIP112 compares only the type flag
+    # and the low 16 bits, so anything above 32 bits is dropped
+    stack_sequence = Sequence(element & MAX_SEQUENCE)
     if not sequence.is_comparable(stack_sequence):
         return False
     if sequence < stack_sequence:
